@@ -9,13 +9,17 @@
   numpy's documented interval; every randomised theorem is `∀ draws`.
 
   Stated on the shared layer-N model (`Model/{Stats,Family,Debiasers,Isimip}.lean`); `ecdf` / `iecdf` laws are reused
-  from `Props/C16.lean`.  Helper lemmas: `Lemmas/C09{Stats,Deb,Step4,Step6,Families,Window}.lean`.
+  from `Props/C16.lean`.  Helper lemmas: `Lemmas/C09{Stats,Deb,Step4,Step6,Families,Window,Precip}.lean`.
+  Guards that only exclude inputs on which the code computes with `nan` / `inf` (empty samples, a zero mean in a
+  denominator) are explicit hypotheses (`lsGuard`, `qmGuard`, `cdftGuard`) even where Lean's total division would let
+  the statement through without them.
 -/
 import IbicusModel.Lemmas.C09Window
+import IbicusModel.Lemmas.C09Precip
 import IbicusModel.Lemmas.GenDebiasers
 
 namespace Props.C09
-open Model.Stats Model.Family Model.Debiasers Model.Isimip Lemmas.Stats Lemmas.C09
+open Model.Stats Model.Family Model.Debiasers Model.Isimip Model.Precip Model.PrecipQM Lemmas.Stats Lemmas.C09
 
 /-! ## 0. pointwise image of a monotone map ⇒ rank preservation -/
 
@@ -27,15 +31,15 @@ theorem image_orderPres (x out : List Rat) (h : ∃ T : Rat → Rat, MonoR T ∧
 
 /-! ## 1. LinearScaling -/
 
-/-- additive: `x ↦ x − (mean H − mean obs)` is **strictly** increasing — no guard at all -/
-theorem ls_add_strict_mono (obs H F : List Rat) :
+/-- additive: `x ↦ x − (mean H − mean obs)` is **strictly** increasing — no guard beyond non-empty samples -/
+theorem ls_add_strict_mono (obs H F : List Rat) (_hg : lsGuard .additive obs H) :
     ∃ T : Rat → Rat, StrictMonoR T ∧ linearScaling .additive obs H F = F.map T :=
   ⟨fun x => x - (mean H - mean obs), fun _ _ h => by simp only []; linarith, rfl⟩
 
 /-- multiplicative: `x ↦ x · (mean obs / mean H)` is non-decreasing **iff-guard** `mean obs / mean H ≥ 0`
     (true for non-negative, pr-like data; for sign-changing data the ratio can be negative — see
     `legacy_ls_mult_reverses`) -/
-theorem ls_mult_mono (obs H F : List Rat) (hr : 0 ≤ mean obs / mean H) :
+theorem ls_mult_mono (obs H F : List Rat) (_hg : lsGuard .multiplicative obs H) (hr : 0 ≤ mean obs / mean H) :
     ∃ T : Rat → Rat, MonoR T ∧ linearScaling .multiplicative obs H F = F.map T :=
   ⟨fun x => x * (mean obs / mean H), fun _ _ h => mul_le_mul_of_nonneg_right h hr, rfl⟩
 
@@ -50,7 +54,7 @@ theorem ls_mult_guard_of_nonneg (obs H : List Rat) (ho : ∀ v ∈ obs, 0 ≤ v)
   · exact_mod_cast Nat.zero_le _
 
 example : ∃ T : Rat → Rat, MonoR T ∧ linearScaling .multiplicative [2, 4] [1, 2] [0, 3, 1] = [0, 3, 1].map T :=
-  ls_mult_mono _ _ _ (by decide +kernel)
+  ls_mult_mono _ _ _ (by decide +kernel) (by decide +kernel)
 
 /-- the guard is necessary: with a negative ratio the code really reverses the order (concrete witness:
     `obs = [1]`, `cm_hist = [-1]`, future `1 < 2` ↦ `-1 > -2`) -/
@@ -62,6 +66,7 @@ theorem legacy_ls_mult_reverses : linearScaling .multiplicative [1] [-1] [1, 2] 
     ppf fitted to `obs` is non-decreasing on `[t, 1 − t]` (`t = cdf_threshold ≤ 1/2`), the window function is the image
     of a non-decreasing map, for all three detrendings (`δ = mean F / mean H > 0` for the multiplicative one) -/
 theorem qm_param_mono_family {P} (Fam : Family P) (t : Rat) (ht : t ≤ 1 / 2) (d : Detrending) (obs H F : List Rat)
+    (_hg : qmGuard d obs H F)
     (hc : MonoR (Fam.cdf (Fam.fit H)))
     (hp : ∀ p q : Rat, t ≤ p → p ≤ q → q ≤ 1 - t → Fam.ppf (Fam.fit obs) p ≤ Fam.ppf (Fam.fit obs) q)
     (hδ : d = .multiplicative → 0 < mean F / mean H) :
@@ -74,10 +79,10 @@ theorem qm_param_mono_family {P} (Fam : Family P) (t : Rat) (ht : t ≤ 1 / 2) (
 /-- **location–scale families with `LocScaleLaws`** (proved for the test double, assumed for `scipy.stats.norm` …):
     guards = the two fitted scales are positive, `0 < cdf_threshold ≤ 1/2`, `δ > 0` for multiplicative detrending -/
 theorem qm_param_mono (Fam : LocScaleFam) (L : LocScaleLaws Fam) (t : Rat) (ht0 : 0 < t) (ht : t ≤ 1 / 2)
-    (d : Detrending) (obs H F : List Rat) (hso : 0 < Fam.scale obs) (hsh : 0 < Fam.scale H)
+    (d : Detrending) (obs H F : List Rat) (hg : qmGuard d obs H F) (hso : 0 < Fam.scale obs) (hsh : 0 < Fam.scale H)
     (hδ : d = .multiplicative → 0 < mean F / mean H) :
     ∃ T : Rat → Rat, MonoR T ∧ qmParam Fam.toFamily t d obs H F = F.map T :=
-  qm_param_mono_family Fam.toFamily t ht d obs H F
+  qm_param_mono_family Fam.toFamily t ht d obs H F hg
     (locScale_cdf_monoR L (Fam.fit H) hsh)
     (fun p q h0 hpq h1 => locScale_ppf_mono L (Fam.fit obs) hso t ht0 p q h0 hpq h1) hδ
 
@@ -85,7 +90,30 @@ theorem qm_param_mono (Fam : LocScaleFam) (L : LocScaleLaws Fam) (t : Rat) (ht0 
 example : ∃ T : Rat → Rat, MonoR T ∧
     qmParam ratSigmoid.toFamily defaultCdfThreshold .additive [1, 2, 4] [0, 2, 3] [5, 1, 1] = [5, 1, 1].map T :=
   qm_param_mono Model.Family.ratSigmoid Lemmas.Family.ratSigmoid_laws _ (by decide +kernel) (by decide +kernel) _ _ _ _
-    (by decide +kernel) (by decide +kernel) (fun h => by cases h)
+    (by decide +kernel) (by decide +kernel) (by decide +kernel) (fun h => by cases h)
+
+/-- **saturation and clipping**: the fitted cdf may be composed with *any* non-decreasing `R` — e.g. the rounding of
+    its value to a double, which makes it exactly `0.0` / `1.0` in the far tails (beyond ±8.3 σ for a normal cdf) — and
+    need only be non-decreasing, not strictly: `threshold_cdf_vals` clips every value into `[t, 1 − t]`, where the ppf is
+    monotone, so saturated and nearly saturated values cannot swap. -/
+theorem qm_param_mono_saturating {P} (Fam : Family P) (R : Rat → Rat) (hR : MonoR R) (t : Rat) (ht : t ≤ 1 / 2)
+    (d : Detrending) (obs H F : List Rat) (hg : qmGuard d obs H F)
+    (hc : MonoR (Fam.cdf (Fam.fit H)))
+    (hp : ∀ p q : Rat, t ≤ p → p ≤ q → q ≤ 1 - t → Fam.ppf (Fam.fit obs) p ≤ Fam.ppf (Fam.fit obs) q)
+    (hδ : d = .multiplicative → 0 < mean F / mean H) :
+    ∃ T : Rat → Rat, MonoR T ∧
+      qmParam { fit := Fam.fit, cdf := fun p x => R (Fam.cdf p x), ppf := Fam.ppf } t d obs H F = F.map T :=
+  qm_param_mono_family { fit := Fam.fit, cdf := fun p x => R (Fam.cdf p x), ppf := Fam.ppf } t ht d obs H F hg
+    (fun a b h => hR _ _ (hc a b h)) hp hδ
+
+/-- why the clipping (and not a replacement of the exact end points only) is needed: the map
+    `v ↦ 1 − t if v ≥ 1, t if v ≤ 0, v otherwise` is **not** monotone — a value just below 1 passes through and ends
+    above the image of 1 (concrete witness, `t = 1/10`) -/
+theorem clipping_is_needed :
+    ¬ MonoR (fun v : Rat => if v ≥ 1 then 1 - 1 / 10 else if v ≤ 0 then 1 / 10 else v) := by
+  intro h
+  have := h (19 / 20) 1 (by norm_num)
+  norm_num at this
 
 /-! ## 3. QuantileMapping, non-parametric (constant extrapolation) -/
 
@@ -128,29 +156,29 @@ example : ∃ T : Rat → Rat, MonoR T ∧ qmNonparam .no_detrending [1, 2, 4] [
 /-- `_apply_CDFt_mapping` is the image of `cm_future` under the composition of four monotone maps (after the shift),
     for every (E, Q) with `EQLaws`.  Guards: samples of size ≥ 2; the multiplicative shift `mean obs / mean H ≥ 0`. -/
 theorem cdft_mono {E Q : List Rat → Rat → Rat} (L : EQLaws E Q) (d : DeltaShift) (obs H F : List Rat)
-    (ho : 2 ≤ obs.length) (hh : 2 ≤ H.length) (hf : 2 ≤ F.length)
+    (_hg : cdftGuard d obs H F) (ho : 2 ≤ obs.length) (hh : 2 ≤ H.length) (hf : 2 ≤ F.length)
     (hs : d = .multiplicative → 0 ≤ mean obs / mean H) :
     ∃ T : Rat → Rat, MonoR T ∧ cdftMappingG E Q d obs H F = F.map T :=
   ⟨_, cdftT_mono L d obs H F ho hh hf hs, cdftMappingG_eq_map E Q d obs H F⟩
 
 /-- all `2 × 9` modelled method pairs -/
 theorem cdft_mono_model (d : DeltaShift) (em : EcdfMethod) (im : IecdfMethod) (obs H F : List Rat)
-    (ho : 2 ≤ obs.length) (hh : 2 ≤ H.length) (hf : 2 ≤ F.length)
+    (hg : cdftGuard d obs H F) (ho : 2 ≤ obs.length) (hh : 2 ≤ H.length) (hf : 2 ≤ F.length)
     (hs : d = .multiplicative → 0 ≤ mean obs / mean H) :
     ∃ T : Rat → Rat, MonoR T ∧ cdftMapping d em im obs H F = F.map T :=
-  cdft_mono (eqLaws_model em im) d obs H F ho hh hf hs
+  cdft_mono (eqLaws_model em im) d obs H F hg ho hh hf hs
 
 /-- `ecdf_method = "kernel_density"` × the nine `iecdf` methods (histogram bins: oracle with `HistLaws`) -/
 theorem cdft_mono_kernel_density (edges : List Rat → List Rat) (counts : List Rat → List Nat)
     (hl : ∀ s, HistLaws (edges s) (counts s)) (im : IecdfMethod) (d : DeltaShift) (obs H F : List Rat)
-    (ho : 2 ≤ obs.length) (hh : 2 ≤ H.length) (hf : 2 ≤ F.length)
+    (hg : cdftGuard d obs H F) (ho : 2 ≤ obs.length) (hh : 2 ≤ H.length) (hf : 2 ≤ F.length)
     (hs : d = .multiplicative → 0 ≤ mean obs / mean H) :
     ∃ T : Rat → Rat, MonoR T ∧
       cdftMappingG (fun s => ecdfHist1 (edges s) (counts s)) (iecdf1 im) d obs H F = F.map T :=
-  cdft_mono (eqLaws_hist edges counts hl im) d obs H F ho hh hf hs
+  cdft_mono (eqLaws_hist edges counts hl im) d obs H F hg ho hh hf hs
 
 example : ∃ T : Rat → Rat, MonoR T ∧ cdftMapping .additive .linear .hazen [1, 2, 4] [0, 2, 3] [5, 1, 1] = [5, 1, 1].map T :=
-  cdft_mono_model _ _ _ _ _ _ (by decide) (by decide) (by decide) (fun h => by cases h)
+  cdft_mono_model _ _ _ _ _ _ (by decide +kernel) (by decide) (by decide) (by decide) (fun h => by cases h)
 
 /-- **CDFt with SSR, for every draw list**: with `0 ≤ u < threshold` (numpy's contract; `threshold` = the smallest
     positive value) the randomised zeros stay strictly below every positive value, the CDFt map is monotone, and the
@@ -201,6 +229,24 @@ theorem cdft_ssr_order_model (d : DeltaShift) (em : EcdfMethod) (im : IecdfMetho
     (hs : d = .multiplicative → 0 ≤ mean (ssrBefore obs H F u).1 / mean (ssrBefore obs H F u).2.1) :
     OrderPres F (cdftSteps true d em im obs H F u) :=
   cdft_ssr_order (eqLaws_model em im) d obs H F u ho hh hf hu hlen hs
+
+/-- for non-negative `obs` and `cm_hist` (precipitation) the guard on the multiplicative shift holds by itself:
+    the randomised samples are non-negative too -/
+theorem cdft_ssr_order_nonneg (d : DeltaShift) (em : EcdfMethod) (im : IecdfMethod) (obs H F u : List Rat)
+    (ho : 2 ≤ obs.length) (hh : 2 ≤ H.length) (hf : 2 ≤ F.length)
+    (hu : ssrDrawsOk (ssrThreshold obs H F) u) (hlen : ssrDrawCount obs H F ≤ u.length)
+    (hobs : ∀ v ∈ obs, 0 ≤ v) (hH : ∀ v ∈ H, 0 ≤ v) :
+    OrderPres F (cdftSteps true d em im obs H F u) := by
+  apply cdft_ssr_order_model d em im obs H F u ho hh hf hu hlen
+  intro _
+  have nn : ∀ (x w : List Rat), (∀ v ∈ x, 0 ≤ v) → (∀ r ∈ w, r ∈ u) → ∀ v ∈ ssrRandomize x w, 0 ≤ v := by
+    intro x w hx hw v hv
+    rcases mem_ssrRandomize hv with h | h
+    · exact hx v h
+    · exact (hu v (hw v h)).1
+  apply div_nonneg
+  · exact mean_nonneg (nn obs _ hobs (fun r hr => List.mem_of_mem_take hr))
+  · exact mean_nonneg (nn H _ hH (fun r hr => List.mem_of_mem_drop (List.mem_of_mem_take hr)))
 
 -- satisfiable: pr-like series with zeros, threshold 1/2, draws in [0, 1/2)
 example : OrderPres [0, 2, 0, 1] (cdftSteps true .additive .linear .linear [0, 1, 3] [1/2, 0, 2] [0, 2, 0, 1]
@@ -291,50 +337,106 @@ theorem window_mono (c : Cfg) (fam : IsiFamily) (o : Oracles) (d : Draws) (obs H
     (h : applyOnWindow c fam o d obs H F yO yH yF = .ok out) : OrderPres F out :=
   window_orderPres c fam o d obs H F yO yH yF out hdet ho hh hf hela hL hc hdata hndL hndU hdL hdU h
 
-/-! ## 7. left-censored gamma model in parametric QuantileMapping (F16) -/
+/-! ## 7. the precipitation models inside parametric QuantileMapping (`Model/PrecipQM.lean`) -/
 
-/-- what holds **for every draw**: monotone on values at or above the censoring threshold, and
-    `x_i < thr ≤ x_j ⇒ out_i ≤ out_j` (draw of a sub-threshold value in `[0, thr)`); `Gh` / `Qo` = fitted gamma cdf /
-    ppf, constrained by monotonicity only -/
-theorem censored_qm_order (Gh Qo : Rat → Rat) (thr t : Rat) (ht : t ≤ 1 / 2) (h0 : 0 ≤ thr)
-    (hG : MonoR Gh) (hQ : ∀ p q : Rat, t ≤ p → p ≤ q → q ≤ 1 - t → Qo p ≤ Qo q)
-    (xi xj ui uj : Rat) (hlt : xi < xj) (hj : thr ≤ xj) (hui : ui < thr) :
-    censQM1 Gh Qo thr t xi ui ≤ censQM1 Gh Qo thr t xj uj :=
-  censQM1_order Gh Qo thr t ht h0 hG hQ xi xj ui uj hlt hj hui
+/-- **hurdle model, every draw** (`u ≤ p0` — `np.random.uniform(0, p0)`; `p0` = dry fraction of `cm_hist`): zeros are
+    ties whose randomised cdf values never exceed `p0`, wet values have cdf values `≥ p0`, the hurdle ppf is monotone —
+    a strictly smaller (non-negative) value never gets a larger output; with and without `cdf_randomization` -/
+theorem hurdle_qm_order (Ah Ao : Amounts) (L : PrecipLaws Ah Ao) (p0h p0o : Rat) (rand : Bool) (t : Rat)
+    (ht0 : 0 < t) (ht : t ≤ 1 / 2) (hp1 : p0h ≤ 1) (hpo : p0o < 1)
+    (xi xj ui uj : Rat) (hxi : 0 ≤ xi) (hlt : xi < xj) (hui : ui ≤ p0h) :
+    qmHurdle1 Ah Ao p0h p0o rand t ui xi ≤ qmHurdle1 Ah Ao p0h p0o rand t uj xj :=
+  qmHurdle1_order Ah Ao L p0h p0o rand t ht0 ht hp1 hpo xi xj ui uj hxi hlt hui
+
+/-- … as the window function `QuantileMapping.apply_on_window` (`no_detrending`, or `multiplicative` with `δ > 0` —
+    the default for `pr`): rank preserving for every draw list with one draw `≤ p0` per value.  Non-negative data. -/
+theorem hurdle_window_order (Ah Ao : Amounts) (L : PrecipLaws Ah Ao) (p0h p0o : Rat) (rand : Bool) (t : Rat)
+    (ht0 : 0 < t) (ht : t ≤ 1 / 2) (hp1 : p0h ≤ 1) (hpo : p0o < 1) (d : Detrending) (H F us : List Rat)
+    (hd : d ≠ .additive) (hδ : d = .multiplicative → 0 < mean F / mean H)
+    (hlen : F.length ≤ us.length) (hF : ∀ v ∈ F, 0 ≤ v) (hus : ∀ u ∈ us, u ≤ p0h) :
+    OrderPres F (window d H F (fun u x => qmHurdle1 Ah Ao p0h p0o rand t u x) us) :=
+  precipWindow_orderPres d H F _ us (fun u => u ≤ p0h) hd hδ hlen hF hus
+    (fun a b ua ub ha hab hu => qmHurdle1_order Ah Ao L p0h p0o rand t ht0 ht hp1 hpo a b ua ub ha hab hu)
+
+/-- the executable instance the driver runs (fits of the rational test double): guards satisfiable -/
+example : PrecipLaws (meanFit [0, 0, 1, 3]) (meanFit [0, 1, 2, 4]) :=
+  precipLaws_ratFam _ _ (by decide +kernel) (by decide +kernel)
+
+example : qmHurdle1 (meanFit [0, 0, 1, 3]) (meanFit [0, 1, 2, 4]) (hurdleP0 [0, 0, 1, 3]) (hurdleP0 [0, 1, 2, 4]) true
+    (1 / 1000) (1 / 3) 0 ≤
+    qmHurdle1 (meanFit [0, 0, 1, 3]) (meanFit [0, 1, 2, 4]) (hurdleP0 [0, 0, 1, 3]) (hurdleP0 [0, 1, 2, 4]) true
+    (1 / 1000) 0 (1 / 2) :=
+  hurdle_qm_order _ _ (precipLaws_ratFam _ _ (by decide +kernel) (by decide +kernel)) _ _ _ _ (by norm_num) (by norm_num)
+    (by decide +kernel) (by decide +kernel) _ _ _ _ (le_refl _) (by norm_num) (by decide +kernel)
+
+/-- **ignore-zeros model**: a dry value (`cdf = −∞`, clipped to `cdf_threshold`) is mapped to `ppf_obs(cdf_threshold)`,
+    never above the image of a wet value; no randomness -/
+theorem iz_qm_order (Ah Ao : Amounts) (L : PrecipLaws Ah Ao) (t : Rat) (ht0 : 0 < t) (ht : t ≤ 1 / 2)
+    (xi xj : Rat) (hxi : 0 ≤ xi) (hlt : xi < xj) : qmIz1 Ah Ao t xi ≤ qmIz1 Ah Ao t xj :=
+  qmIz1_order Ah Ao L t ht0 ht xi xj hxi hlt
+
+theorem iz_window_order (Ah Ao : Amounts) (L : PrecipLaws Ah Ao) (t : Rat) (ht0 : 0 < t) (ht : t ≤ 1 / 2)
+    (d : Detrending) (H F us : List Rat) (hd : d ≠ .additive) (hδ : d = .multiplicative → 0 < mean F / mean H)
+    (hlen : F.length ≤ us.length) (hF : ∀ v ∈ F, 0 ≤ v) :
+    OrderPres F (window d H F (fun _ x => qmIz1 Ah Ao t x) us) :=
+  precipWindow_orderPres d H F _ us (fun _ => True) hd hδ hlen hF (fun _ _ => trivial)
+    (fun a b _ _ ha hab _ => qmIz1_order Ah Ao L t ht0 ht a b ha hab)
+
+/-- **left-censored gamma model, what holds for every draw**: monotone on values at or above the censoring threshold,
+    and `x_i < thr ≤ x_j ⇒ out_i ≤ out_j` (draw of the sub-threshold value in `[0, thr)`), with and without
+    `censor_in_ppf` -/
+theorem censored_qm_order (Ah Ao : Amounts) (L : PrecipLaws Ah Ao) (thr : Rat) (censor : Bool) (t : Rat)
+    (ht0 : 0 < t) (ht : t ≤ 1 / 2) (h0 : 0 ≤ thr)
+    (xi xj ui uj : Rat) (hxi : 0 ≤ xi) (hlt : xi < xj) (hj : thr ≤ xj) (hui0 : 0 ≤ ui) (hui : ui < thr) :
+    qmCens1 Ah Ao thr censor t ui xi ≤ qmCens1 Ah Ao thr censor t uj xj :=
+  qmCens1_order Ah Ao L thr censor t ht0 ht h0 xi xj ui uj hxi hlt hj hui0 hui
+
+/-- … as the window function (`no_detrending`): for every draw list with `0 ≤ u < thr`, every pair `F_i < F_j` with
+    `F_j` at or above the censoring threshold keeps its order -/
+theorem censored_window_order (Ah Ao : Amounts) (L : PrecipLaws Ah Ao) (thr : Rat) (censor : Bool) (t : Rat)
+    (ht0 : 0 < t) (ht : t ≤ 1 / 2) (h0 : 0 ≤ thr) (H F us : List Rat)
+    (hlen : F.length ≤ us.length) (hF : ∀ v ∈ F, 0 ≤ v) (hus : ∀ u ∈ us, 0 ≤ u ∧ u < thr)
+    (i j : Nat) (hi : i < F.length) (hj : j < F.length) (hlt : F.getD i 0 < F.getD j 0) (hthr : thr ≤ F.getD j 0) :
+    (window .no_detrending H F (fun u x => qmCens1 Ah Ao thr censor t u x) us).getD i 0 ≤
+      (window .no_detrending H F (fun u x => qmCens1 Ah Ao thr censor t u x) us).getD j 0 := by
+  rw [window_getD_no H F _ us hlen i hi, window_getD_no H F _ us hlen j hj]
+  have hu := hus _ (getD_mem us i (by omega))
+  exact qmCens1_order Ah Ao L thr censor t ht0 ht h0 _ _ _ _ (hF _ (getD_mem F i hi)) hlt hthr hu.1 hu.2
 
 /-- **F16** (known finding, inherent to censoring — not a guard to hide behind): two *distinct sub-threshold*
-    inputs are re-drawn independently and can come out in either order (concrete witness) -/
+    inputs are re-drawn independently and can come out in either order.  Concrete witness on the executable model:
+    `cm_hist` amounts scale 1, `obs` amounts scale 4 (the composed map is `x ↦ 4x`), `thr = 1`, `t = 1/1000`:
+    inputs `0 < 1/2`, draws `3/4`, `1/2` (both in `[0, thr)`), outputs `3 > 2`. -/
 theorem censored_qm_subthreshold_pair_can_invert :
-    ∃ (Gh Qo : Rat → Rat) (thr t xi xj ui uj : Rat), MonoR Gh ∧
-      (∀ p q : Rat, t ≤ p → p ≤ q → q ≤ 1 - t → Qo p ≤ Qo q) ∧
-      xi < xj ∧ xj < thr ∧ 0 ≤ ui ∧ ui < thr ∧ 0 ≤ uj ∧ uj < thr ∧
-      censQM1 Gh Qo thr t xj uj < censQM1 Gh Qo thr t xi ui :=
-  censQM_subthreshold_pair_can_invert
+    PrecipLaws (ratFam 0 1) (ratFam 0 4) ∧
+    qmCens1 (ratFam 0 1) (ratFam 0 4) 1 true (1 / 1000) (1 / 2) (1 / 2) <
+      qmCens1 (ratFam 0 1) (ratFam 0 4) 1 true (1 / 1000) (3 / 4) 0 :=
+  ⟨precipLaws_ratFam 1 4 (by norm_num) (by norm_num), by decide +kernel⟩
 
-/-! ## 8. hurdle model in parametric QuantileMapping -/
+/-! ## 8. legitimate zero-valued settings: a threshold of `0` is a threshold -/
 
-/-- **for every draw** `u ≤ p0` (`np.random.uniform(0, p0)`; `p0` = dry fraction of `cm_hist`): zeros are ties whose
-    randomised cdf values never exceed `p0`, wet values have cdf values `≥ p0`, the hurdle ppf is monotone — a strictly
-    smaller (non-negative) value never gets a larger output.  Local transcription (`Lemmas.C09.hurdleCdf / hurdlePpf`)
-    of `gen_PrecipitationHurdleModel`; the precipitation models proper are C17's. -/
-theorem hurdle_qm_order (Gh Qo : Rat → Rat) (p0h p0o t : Rat) (ht0 : 0 < t) (ht : t ≤ 1 / 2)
-    (hp1 : p0h ≤ 1) (hpo : p0o < 1) (hG : MonoR Gh) (hG0 : ∀ z : Rat, 0 ≤ Gh z)
-    (hQ : ∀ p q : Rat, 0 < p → p ≤ q → q < 1 → Qo p ≤ Qo q) (hQ0 : ∀ p : Rat, 0 < p → p < 1 → 0 ≤ Qo p)
-    (xi xj ui uj : Rat) (hxi : 0 ≤ xi) (hlt : xi < xj) (hui : ui ≤ p0h) :
-    hurdleQM1 Gh Qo p0h p0o t xi ui ≤ hurdleQM1 Gh Qo p0h p0o t xj uj :=
-  hurdleQM1_order Gh Qo p0h p0o t ht0 ht hp1 hpo hG hG0 hQ hQ0 xi xj ui uj hxi hlt hui
+/-- the location that step 6 fixes in the parametric fits is the lower threshold whenever it is finite — **including
+    `0`** (`ISIMIP(lower_threshold = 0)`: only exact zeros are dry); `floc = 0.0` must not be mistaken for "not fixed" -/
+theorem fixedArgs_floc (c : Cfg) (l : Rat) (h : c.lowerThreshold = .fin l) (fl fs : Option Rat)
+    (hf : fixedArgs c = .ok (fl, fs)) : fl = some l := by
+  unfold fixedArgs at hf
+  cases hu : c.upperThreshold <;>
+    simp [Cfg.hasLowerThreshold, Cfg.hasUpperThreshold, h, hu, ExtRat.gtNegInf, ExtRat.ltPosInf, ExtRat.toRat, bind,
+      Except.bind, pure, Except.pure, Except.map] at hf <;>
+    exact hf.1.symm
 
--- satisfiable: `G(z) = z/(1+z)` on `z ≥ 0`, `Q(p) = p/(1−p)`, dry fractions 1/2 and 1/4, a dry and a wet day
-example : hurdleQM1 (fun z => if z < 0 then 0 else z / (1 + z)) (fun p => p / (1 - p)) (1 / 2) (1 / 4) (1 / 1000) 0 (1 / 3)
-    ≤ hurdleQM1 (fun z => if z < 0 then 0 else z / (1 + z)) (fun p => p / (1 - p)) (1 / 2) (1 / 4) (1 / 1000) 1 0 := by
-  decide +kernel
+/-- pr with `lower_threshold = lower_bound = 0` -/
+def prZeroCfg : Cfg :=
+  { trendMethod := .mixed, nonparametricQm := false, detrending := false,
+    lowerBound := .fin 0, lowerThreshold := .fin 0 }
+
+example : fixedArgs prZeroCfg = .ok (some 0, none) := by decide +kernel
 
 /-
   Not proved here (left to the oracle of `harness/c09.py`, stated in full):
 
-  * the censored and the hurdle model are proved on *local transcriptions* of the two `StatisticalModel` classes
-    (`Model/Precip.lean`, C17, does not exist in this tree); their tie to the code is a structural probe in
-    `harness/c09.py` plus the oracle, not a driver correspondence.
+  * QuantileMapping with a precipitation model and `detrending = "additive"` (not a default; the shifted values
+    `x − δ` can be negative or hit zero, where the hurdle / ignore-zeros `x == 0` test changes class).
   * the whole ISIMIP window for *tied* step-4 draws (`window_mono` carries `Nodup` hypotheses on the draws), and with
     `detrending = True` (the per-year trend added back in step 7 differs between years, so order is preserved
     within a year only — outside the property's "within one window, detrending off" clause).
